@@ -238,6 +238,17 @@ class ExprBuilder:
 
     def place(self, local, proj, d=0, at=None):
         proj = self._resolve_indices(proj, d, at)
+        # a loop-carried slice that is re-bound to its own tail (`while let [head, tail @ ..] = rest { rest = tail }`):
+        # the tail of a tail is a tail — collapsing the repetition lets the cycle be recognised instead of unrolled
+        if sum(1 for p_ in proj if isinstance(p_, tuple) and p_ and p_[0] == 'sub') > 1:
+            out_, seen_sub = [], False
+            for p_ in proj:
+                if isinstance(p_, tuple) and p_ and p_[0] == 'sub':
+                    if seen_sub:
+                        continue
+                    seen_sub = True
+                out_.append(p_)
+            proj = tuple(out_)
         key = (local, proj, at)
         if key in self.memo:
             return self.memo[key]
@@ -2012,3 +2023,53 @@ def paths_to(body, target, start=0, limit=400):
             if feasible(cv):
                 res.append(cv)
     return res
+
+
+def subst_closure_param(x, element):
+    """an expression of a closure body with its (single) element parameter replaced by `element`"""
+    if not isinstance(x, E):
+        return x
+    if x.kind == 'place' and x.root == ('param', 2):
+        flds = tuple(str(f) for f in x.fields)
+        return project_expr(element, flds) if flds else element
+    if not x.args:
+        return x
+    return E(x.kind, name=x.name, args=[subst_closure_param(a, element) for a in x.args], root=x.root, fields=x.fields,
+             const=x.const, site=x.site, extra=x.extra, proj=x.proj)
+
+
+def unroll_all(facts, body, e):
+    """`[e1, .., en].into_iter().all(|x| p(x))` (any()/all() over a LITERAL array): the list of `p(ei)` fact dicts
+    (necessary_true_facts of the predicate with the parameter replaced by each element), else None"""
+    s = e.strip() if e.kind == 'call' and e.name.rsplit('::', 1)[-1] != 'all' else e
+    if not (s.kind == 'call' and s.name.rsplit('::', 1)[-1] == 'all' and len(s.args) == 2 and hasattr(s.extra, 'args')):
+        return None
+    arr = [y for y in s.args[0].walk() if y.kind == 'agg' and y.name == 'array']
+    cbs = closure_args_of_call(facts, body, s.extra)
+    if len(arr) != 1 or len(cbs) != 1 or not arr[0].args:
+        return None
+    chain_ops = []
+
+    def above(y):
+        # the adaptors between the array and all() (not the calls inside the array's elements)
+        if y.kind == 'agg' and y.name == 'array':
+            return
+        if y.kind == 'call':
+            chain_ops.append(y.name.rsplit('::', 1)[-1])
+        for a in y.args:
+            if isinstance(a, E):
+                above(a)
+    above(s.args[0])
+    if any(o not in ('into_iter', 'iter', 'copied', 'cloned', 'as_slice', 'as_ref', 'deref', 'by_ref', 'borrow')
+           for o in chain_ops):
+        return None
+    pred = necessary_true_facts(cbs[0])
+    out = []
+    for el in arr[0].args:
+        here = {}
+        for k, v in pred.items():
+            if v and v[0] in ('Lt', 'Le', 'Gt', 'Ge', 'Eq', 'Ne'):
+                cm = (v[0], subst_closure_param(v[1], el), subst_closure_param(v[2], el))
+                here['%s(%r,%r)' % cm] = cm
+        out.append(here)
+    return out
